@@ -156,8 +156,31 @@ func safeSpan(n parser.Node) (sp parser.Span, pan string) {
 	return n.Span(), ""
 }
 
+// checkAbsentParts: an absent optional part (a typed nil node in the tree of
+// a successful or failed parse) reports an invalid span and does not panic.
+func checkAbsentParts(stmts []parser.Statement) string {
+	for _, st := range stmts {
+		if astx.IsNilNode(st) {
+			continue
+		}
+		for _, c := range astx.NilChildren(st) {
+			sp, pan := safeSpan(c.Node)
+			if pan != "" {
+				return fmt.Sprintf("Span() of the absent part %s panics: %s", c.Field, pan)
+			}
+			if sp.IsValid() {
+				return fmt.Sprintf("the absent part %s reports the valid span %v", c.Field, sp)
+			}
+		}
+	}
+	return ""
+}
+
 // checkSpansSuccess verifies the success half of C10 on a parsed program.
 func checkSpansSuccess(src string, stmts []parser.Statement) string {
+	if m := checkAbsentParts(stmts); m != "" {
+		return m
+	}
 	toks := parser.Scan(src)
 	starts, ends := map[int]int{}, map[int]int{}
 	for i, t := range toks {
@@ -354,6 +377,9 @@ func checkSpansFailure(src string, stmts []parser.Statement, err error) string {
 			}
 		}
 	}
+	if m := checkAbsentParts(stmts); m != "" {
+		return m
+	}
 	text, pan := safeErrorText(err)
 	if pan != "" {
 		return "formatting the parse error panics: " + pan
@@ -533,6 +559,8 @@ func TestC10Soups(t *testing.T) {
 	}
 	enumSoups(soupLarge, maxLen, env.Shard, env.NShards, func(soup string) { one(soup, soupContexts) })
 	enumSoups(soupOps, env.Pick(3, 4), env.Shard, env.NShards, func(soup string) { one(soup, soupOpContexts) })
+	nw := enumDictionary(env.Pick(3, 4), env.Shard, env.NShards, func(src string) { one(src, []string{"%s"}) })
+	st.Note("plus the source dictionary: each of the %d words found as string literals in the parser and compiler sources followed by every sequence of <= %d tokens over %q, spliced into %q", nw, env.Pick(3, 4), dictTail, dictContexts)
 }
 
 func FuzzC10Positions(f *testing.F) {
